@@ -26,18 +26,38 @@
 (* (control characters, unbalanced IPv6 bracket, non-numeric port, bad     *)
 (* percent-escape, blank in the host), a string net/url is lenient about,  *)
 (* or a well-formed but unusual URL.  net/url.Parse is modelled stage by   *)
-(* stage (UrlParse).  Named deviation                                      *)
+(* stage (UrlParse).  The endpoint ELEMENT has a lexical form (NsForms):   *)
+(* how its tag is written and which namespace declarations are in scope    *)
+(* (md: prefix / default namespace / another prefix bound to the metadata  *)
+(* namespace on the element itself or on an ancestor / a prefix or default *)
+(* bound to a FOREIGN namespace / xmlns="" / a prefix declared nowhere).   *)
+(* Two steps of encoding/xml come before the location check: ResolveName   *)
+(* (Decoder.translate: the expanded name of the element) and MatchField    *)
+(* (which field of the descriptor struct takes the element: the local name *)
+(* decides, the namespace only where the field's tag names one - none of   *)
+(* the endpoint fields does).  Which elements reach an endpoint slice is   *)
+(* thus derived; the statement's requirement applies to every element that *)
+(* does, whatever its namespace.  Named deviations                         *)
 (*   PrefixCheckOnly   the location is judged by the text before its first *)
 (*                     colon only (no URL parse)                           *)
-(* is FALSE in the registered configurations and TRUE in                   *)
-(* HtmlForms_C14dev.cfg, where TLC must refute RejectsHostile.             *)
+(*   ForeignNamespaceUnchecked   the location check is skipped for an      *)
+(*                     element whose namespace is not the metadata one     *)
+(*                     (the element is still collected)                    *)
+(* are FALSE in the registered configurations and TRUE in                  *)
+(* HtmlForms_C14dev.cfg / HtmlForms_C14devns.cfg, where TLC must refute    *)
+(* RejectsHostile.                                                         *)
 (***************************************************************************)
 EXTENDS Integers, Sequences, FiniteSets, TLC, Json
 
 CONSTANTS MaxLen,     \* bound on the length of hostile class-strings (2 quick / 3 thorough)
           Parts,      \* subset of {"form", "meta"}
           Escaper,    \* "html" (html/template, the implementation) | "text" (text/template: the mutant, for demonstration)
-          PrefixCheckOnly   \* named deviation of part "meta" (FALSE: the implementation)
+          PrefixCheckOnly,  \* named deviation of part "meta" (FALSE: the implementation)
+          ForeignNamespaceUnchecked,   \* named deviation of part "meta" (FALSE: the implementation)
+          Descs,      \* part "meta": the descriptor types enumerated (all five in the registered configurations)
+          BaseCases,  \* part "meta": TRUE = the full product element x attribute x binding x location class, written with the default namespace
+          NsSet,      \* part "meta": the other lexical forms of the endpoint element that are enumerated ...
+          NsWide      \* ... over the covering subset of bindings x location classes (FALSE) or over a wide one (TRUE)
 
 (***************************************************************************)
 (*                          Part "form": alphabet                          *)
@@ -244,6 +264,46 @@ Elements ==
     El("AttributeAuthorityDescriptor", "AssertionIDRequestService", "E") }
 MetaAttrs == {"Location", "ResponseLocation"}
 
+(* The lexical form of the endpoint element.  The document frame is either "default" (the root declares     *)
+(* xmlns=MdNs, descriptors are written without prefix) or "md" (the root declares xmlns:md=MdNs, descriptors *)
+(* are written md:...).  A form is the prefix of the element's tag and the namespace declarations on the    *)
+(* root, on the descriptor and on the element itself (innermost last).                                      *)
+MdNs    == "urn:oasis:names:tc:SAML:2.0:metadata"
+OtherNs == "urn:example:other"          \* any URI that is not MdNs character for character (harness: look-alikes too)
+D(p, u) == <<p, u>>
+LexForm(prefix, root, desc, self) == [prefix |-> prefix, scope |-> <<root, desc, self>>]
+DefaultFrame == {D("", MdNs)}
+MdFrame      == {D("md", MdNs)}
+FormOf(nf) ==
+  CASE nf = "default"        -> LexForm("",   DefaultFrame, {}, {})                        \* <E>            (every document of the base cases)
+    [] nf = "mdPrefix"       -> LexForm("md", MdFrame, {}, {})                             \* <md:E>
+    [] nf = "selfPrefix"     -> LexForm("q",  MdFrame, {}, {D("q", MdNs)})                 \* <q:E xmlns:q=MdNs>: another prefix, declared on the element
+    [] nf = "ancestorPrefix" -> LexForm("q",  MdFrame, {D("q", MdNs)}, {})                 \* <q:E>, xmlns:q=MdNs on the descriptor only
+    [] nf = "selfDefault"    -> LexForm("",   MdFrame, {}, {D("", MdNs)})                  \* <E xmlns=MdNs> in a prefixed frame
+    [] nf = "foreignPrefix"  -> LexForm("x",  MdFrame \cup {D("x", OtherNs)}, {}, {})      \* <x:E>, xmlns:x=OtherNs on the root
+    [] nf = "foreignSelf"    -> LexForm("x",  DefaultFrame, {}, {D("x", OtherNs)})         \* <x:E xmlns:x=OtherNs>
+    [] nf = "foreignDefault" -> LexForm("",   MdFrame, {}, {D("", OtherNs)})               \* <E xmlns=OtherNs>
+    [] nf = "noNs"           -> LexForm("",   DefaultFrame, {}, {D("", "")})               \* <E xmlns="">: the default namespace reset
+    [] nf = "noNsFrame"      -> LexForm("",   MdFrame, {}, {})                             \* <E> where no default namespace is declared
+    [] nf = "undeclared"     -> LexForm("zz", DefaultFrame, {}, {})                        \* <zz:E>, zz declared nowhere
+NsForms == {"default", "mdPrefix", "selfPrefix", "ancestorPrefix", "selfDefault", "foreignPrefix", "foreignSelf",
+            "foreignDefault", "noNs", "noNsFrame", "undeclared"}
+\* encoding/xml Decoder.translate on an element name: the innermost declaration of the prefix; without prefix the
+\* default namespace in scope ("" when there is none or it was reset); a prefix that is declared nowhere is NOT an
+\* error for encoding/xml - the prefix itself is left standing as the "namespace"
+RECURSIVE Lookup(_, _, _)
+Lookup(scope, i, p) == IF i = 0 THEN p
+                       ELSE IF \E d \in scope[i] : d[1] = p THEN (CHOOSE d \in scope[i] : d[1] = p)[2]
+                       ELSE Lookup(scope, i - 1, p)
+SpaceOf(nf) == Lookup(FormOf(nf).scope, 3, FormOf(nf).prefix)
+XName(space, local) == [space |-> space, local |-> local]
+NoName == XName("?", "?")
+\* metadata.go: the field tags of the descriptor structs (`xml:"SingleSignOnService"`, ...) name the local name only;
+\* Endpoint and IndexedEndpoint have no XMLName field.  encoding/xml (unmarshal, struct case): a child element goes to
+\* the field whose tag has its local name and - only when the tag names a namespace - its namespace.
+FieldTag(e) == XName("", e.elem)
+Takes(tag, name) == tag.local = name.local /\ (tag.space = "" \/ tag.space = name.space)
+
 (* net/url.Parse on a representative of the class, stage by stage (url.go parse / getScheme /           *)
 (* parseAuthority / parseHost / setPath / setFragment).  Result: does it fail, and the scheme it reads. *)
 UOk(sch) == [fails |-> FALSE, scheme |-> sch]
@@ -293,8 +353,10 @@ VARIABLES c,        \* the abstract case
           env,      \* form: slot values
           out,      \* form: rendered output stream
           dom,      \* form: token sequence
-          loc, rloc, result    \* meta: the two attribute values and the parse verdict
-vars == <<c, pc, env, out, dom, loc, rloc, result>>
+          loc, rloc, result,   \* meta: the two attribute values and the parse verdict
+          xname,    \* meta: the expanded name of the endpoint element (after ResolveName)
+          slice     \* meta: the struct field (= endpoint slice) the element is decoded into, "none" when no field takes it
+vars == <<c, pc, env, out, dom, loc, rloc, result, xname, slice>>
 
 BenignStr == <<"plain">>
 FormCases ==
@@ -303,9 +365,24 @@ FormCases ==
 FormCaseOK(x) == x.slot \in SlotsOf(x.form) /\ (x.base => x.slot = "URL")
 \* location classes: every scheme class as a plain value, the http-ish ones with every other shape as well
 LocClasses == { V(sc, "plain") : sc \in Schemes } \cup { V(sc, sh) : sc \in HttpSchemes, sh \in Shapes \ {"plain"} }
-MetaCases ==
-  { [part |-> "meta", el |-> e, attr |-> a, binding |-> b, scheme |-> lc.scheme, shape |-> lc.shape] :
-      e \in Elements, a \in MetaAttrs, b \in Bindings, lc \in LocClasses }
+EnumElements == { e \in Elements : e.desc \in Descs }
+MetaCase(e, a, b, lc, nf) == [part |-> "meta", el |-> e, attr |-> a, binding |-> b, scheme |-> lc.scheme, shape |-> lc.shape, ns |-> nf]
+MetaCasesBase ==
+  { MetaCase(e, a, b, lc, "default") : e \in EnumElements, a \in MetaAttrs, b \in Bindings, lc \in LocClasses }
+\* the other lexical forms: a covering subset of binding x location class
+\*   every binding x {script scheme, relative, plain https}
+\*   one standard binding and the unknown one x every other plain scheme class
+\*   one standard binding x one shape of each group (not a URL: control characters, authority; lenient; well-formed)
+NsShapes == {V("https", "ctlCRLF"), V("http", "badPort"), V("https", "emptyHost"), V("https", "fragment"), V("httpMixed", "port")}
+NsCover ==
+  IF NsWide THEN Bindings \X ({ V(sc, "plain") : sc \in Schemes } \cup NsShapes)
+  ELSE (Bindings \X {V("javascript", "plain"), V("relPath", "plain"), V("https", "plain")})
+       \cup ({"post", "unknown"} \X { V(sc, "plain") : sc \in Schemes })
+       \cup ({"redirect"} \X NsShapes)
+MetaCasesNs ==
+  { MetaCase(e, a, bl[1], bl[2], nf) : e \in EnumElements, a \in MetaAttrs, bl \in NsCover, nf \in NsSet \ {"default"} }
+MetaCases == (IF BaseCases THEN MetaCasesBase ELSE {}) \cup MetaCasesNs
+ASSUME NsSet \subseteq NsForms /\ Descs \subseteq { e.desc : e \in Elements }
 
 EnvOf(x) == [sl \in AllSlots |-> IF sl = x.slot THEN (IF x.base THEN <<"base">> \o x.s ELSE x.s)
                                  ELSE IF sl = "URL" THEN <<"base">> ELSE BenignStr]
@@ -313,10 +390,10 @@ EnvOf(x) == [sl \in AllSlots |-> IF sl = x.slot THEN (IF x.base THEN <<"base">> 
 InitForm == /\ "form" \in Parts
             /\ c \in {x \in FormCases : FormCaseOK(x)}
             /\ env = EnvOf(c) /\ pc = "render" /\ out = <<>> /\ dom = <<>>
-            /\ loc = AbsentV /\ rloc = AbsentV /\ result = "n/a"
+            /\ loc = AbsentV /\ rloc = AbsentV /\ result = "n/a" /\ xname = NoName /\ slice = ""
 InitMeta == /\ "meta" \in Parts
             /\ c \in MetaCases
-            /\ pc = "checkLoc" /\ env = <<>> /\ out = <<>> /\ dom = <<>>
+            /\ pc = "resolve" /\ env = <<>> /\ out = <<>> /\ dom = <<>> /\ xname = NoName /\ slice = ""
             /\ loc  = (IF c.attr = "Location" THEN V(c.scheme, c.shape) ELSE Benign)          \* aux decoded by encoding/xml
             /\ rloc = (IF c.attr = "ResponseLocation" THEN V(c.scheme, c.shape) ELSE AbsentV)
             /\ result = "none"
@@ -324,18 +401,35 @@ Init == InitForm \/ InitMeta
 
 \* tmpl.Execute
 DoRender   == /\ pc = "render" /\ out' = Render(Template(c.form), env) /\ pc' = "tokenize"
-              /\ UNCHANGED <<c, env, dom, loc, rloc, result>>
+              /\ UNCHANGED <<c, env, dom, loc, rloc, result, xname, slice>>
 \* the browser
 DoTokenize == /\ pc = "tokenize" /\ dom' = Tokenize(out) /\ pc' = "done"
-              /\ UNCHANGED <<c, env, out, loc, rloc, result>>
+              /\ UNCHANGED <<c, env, out, loc, rloc, result, xname, slice>>
+
+\* encoding/xml: the start tag of the endpoint element is read and its name translated
+ResolveName ==
+  /\ pc = "resolve" /\ pc' = "match"
+  /\ xname' = XName(SpaceOf(c.ns), c.el.elem)
+  /\ UNCHANGED <<c, env, out, dom, loc, rloc, result, slice>>
+\* encoding/xml: the descriptor struct's fields are searched for one that takes the element; an element no field
+\* takes is skipped (nothing of it is stored)
+MatchField ==
+  /\ pc = "match"
+  /\ IF Takes(FieldTag(c.el), xname)
+       THEN pc' = "checkLoc" /\ slice' = c.el.elem /\ UNCHANGED <<loc, rloc, result>>
+       ELSE pc' = "done" /\ slice' = "none" /\ loc' = AbsentV /\ rloc' = AbsentV /\ result' = "ok"
+  /\ UNCHANGED <<c, env, out, dom, xname>>
 
 \* metadata.go:301 / :339   m.Location, err = checkEndpointLocation(m.Binding, m.Location)
+\* (deviation ForeignNamespaceUnchecked: UnmarshalXML returns before the checks when the element is not in MdNs)
+Unchecked == ForeignNamespaceUnchecked /\ xname.space # MdNs
 CheckLocation ==
   /\ pc = "checkLoc"
   /\ LET r == CheckEL(c.binding, loc) IN
-       IF r.err THEN pc' = "done" /\ result' = "error" /\ UNCHANGED <<loc, rloc>>
+       IF Unchecked THEN pc' = "done" /\ result' = "ok" /\ UNCHANGED <<loc, rloc>>
+       ELSE IF r.err THEN pc' = "done" /\ result' = "error" /\ UNCHANGED <<loc, rloc>>
        ELSE pc' = "checkRLoc" /\ loc' = r.v /\ UNCHANGED <<rloc, result>>
-  /\ UNCHANGED <<c, env, out, dom>>
+  /\ UNCHANGED <<c, env, out, dom, xname, slice>>
 \* metadata.go:305 (Endpoint: skipped when the string is empty -- named deviation
 \* EndpointSkipsEmptyResponseLocation) / :343 (IndexedEndpoint: skipped when the pointer is nil,
 \* a blanked result is stored as nil)
@@ -347,9 +441,9 @@ CheckResponseLocation ==
        ELSE IF r.err THEN pc' = "done" /\ result' = "error" /\ UNCHANGED rloc
        ELSE /\ pc' = "done" /\ result' = "ok"
             /\ rloc' = (IF r.v = Blank /\ c.el.kind = "IE" THEN AbsentV ELSE r.v)
-  /\ UNCHANGED <<c, env, out, dom, loc>>
+  /\ UNCHANGED <<c, env, out, dom, loc, xname, slice>>
 
-Next == DoRender \/ DoTokenize \/ CheckLocation \/ CheckResponseLocation
+Next == DoRender \/ DoTokenize \/ ResolveName \/ MatchField \/ CheckLocation \/ CheckResponseLocation
 Spec == Init /\ [][Next]_vars
 
 (***************************************************************************)
@@ -428,12 +522,19 @@ SafeValue(v) == v \in Blankish \/ (HttpPrefix(v) /\ ~NotUrl(v))
 Target == IF c.attr = "Location" THEN loc ELSE rloc
 Case == V(c.scheme, c.shape)
 
+\* The statement speaks about "endpoint locations obtained by parsing metadata XML ... in every endpoint-bearing
+\* element": whatever ends up in an endpoint slice of the parsed document, however the element was written and
+\* whatever namespace it is in.  Only the duty to PRESERVE a good location is tied to the element being a genuine
+\* metadata element (XML Namespaces: its expanded name is in MdNs, by whatever prefix or declaration): whether an
+\* element of another namespace is an endpoint at all is left open - dropping it is as safe as keeping it.
+GenuineMd == SpaceOf(c.ns) = MdNs
 MetaClass ==
   IF c.scheme = "empty" THEN "DontCare"                                   \* nothing to protect
   ELSE IF ~HttpPrefix(Case) THEN "MustReject"                             \* script schemes, blanks / controls in front, no scheme
   ELSE IF NotUrl(Case) THEN "MustReject"                                  \* the right prefix, but not a URL
   ELSE IF c.binding \notin Known THEN "DontCare"                          \* blanked, says the statement; harmless if kept
   ELSE IF Lax(Case) \/ c.scheme = "httpMixed" THEN "DontCare"             \* oddities the statement does not rule on
+  ELSE IF ~GenuineMd THEN "DontCare"                                      \* a good location on an element outside the metadata namespace
   ELSE "MustAccept"                                                       \* a well-formed http(s) URL on a standard binding
 Required == CASE MetaClass = "MustReject" -> "error-or-blank"
               [] MetaClass = "MustAccept" -> "preserved"
@@ -442,7 +543,10 @@ Required == CASE MetaClass = "MustReject" -> "error-or-blank"
 SurvivorsSafe  == Done /\ IsMeta /\ result = "ok" => SafeValue(loc) /\ SafeValue(rloc)
 RejectsHostile == Done /\ IsMeta /\ MetaClass = "MustReject" => result = "error" \/ Target \in Blankish
 AcceptsGood    == Done /\ IsMeta /\ MetaClass = "MustAccept" => result = "ok" /\ Target = Case
-UnknownBlanked == Done /\ IsMeta /\ c.binding \notin Known => result = "ok" /\ loc = Blank /\ rloc \in Blankish
+UnknownBlanked == Done /\ IsMeta /\ c.binding \notin Known => result = "ok" /\ loc = (IF slice = "none" THEN AbsentV ELSE Blank) /\ rloc \in Blankish
+\* the derivation itself: in this library every endpoint element written inside a descriptor reaches its slice,
+\* in whatever namespace it is (the field tags name no namespace) - so none is exempt from the requirement
+AllReachASlice == Done /\ IsMeta => slice = c.el.elem
 
 (***************************** vector emission *****************************)
 ASSUME \A f \in Forms : PrintT(<<"SKEL", ToJson([form |-> f, nodes |-> Template(f)])>>)
@@ -450,7 +554,8 @@ ASSUME \A f \in Forms : PrintT(<<"SKEL", ToJson([form |-> f, nodes |-> Template(
 FormVec == [part |-> "form", form |-> c.form, slot |-> c.slot, base |-> c.base, s |-> c.s, class |-> FormClass,
             pred |-> [action |-> IF Unsafe(env["URL"]) THEN "filter" ELSE "input", ok |-> StructureOK]]
 MetaVec == [part |-> "meta", desc |-> c.el.desc, elem |-> c.el.elem, kind |-> c.el.kind, attr |-> c.attr,
-            binding |-> c.binding, scheme |-> c.scheme, shape |-> c.shape, class |-> MetaClass, required |-> Required,
+            binding |-> c.binding, scheme |-> c.scheme, shape |-> c.shape, ns |-> c.ns, space |-> xname.space, slice |-> slice,
+            class |-> MetaClass, required |-> Required,
             pred |-> [result |-> result, value |-> IF result = "error" THEN "n/a" ELSE IF Target \in Blankish THEN "blank" ELSE "kept"]]
 Emit == Done => PrintT(<<"VEC", ToJson(IF IsForm THEN FormVec ELSE MetaVec)>>)
 =============================================================================
